@@ -921,8 +921,15 @@ class GroupBy:
             counts_one_value = counts[slice_]
             count = np.zeros(len(self._result_index), dtype=np.int64)
 
+            temporal_dtype = None
+            if combined.dtype.kind in "mM":
+                # merge on the integer view, compiled code knows no datetime64/timedelta64
+                temporal_dtype = results_one_value[0].dtype
+                combined = combined.astype(temporal_dtype).view("int64")
             for j, result in enumerate(results_one_value):
                 result = result[:-1]  # ignore null group
+                if temporal_dtype is not None:
+                    result = result.view("int64")
                 if self._group_key_pointers is None:
                     # all chunks share the global codes; leave out the null slot
                     pointer = slice(0, len(self._result_index))
@@ -935,6 +942,8 @@ class GroupBy:
                 # a group without observations in this chunk keeps its value
                 combined[pointer] = np.where(chunk_count > 0, merged, combined[pointer])
                 count[pointer] += chunk_count
+            if temporal_dtype is not None:
+                combined = combined.view(temporal_dtype)
             individual_results.append((combined, count))
 
         return individual_results
